@@ -11,7 +11,9 @@ INV = {
             'Inv_C05_ForeignUntouched', 'Inv_C05_Orphan'],
     'C06': ['Inv_C06_AvailableJustified', 'Inv_C06_ControllerOf', 'Inv_C06_SucceededWhenAvailable', 'Act_C06_SucceededSticky',
             'Inv_C06_InTransition', 'Inv_C06_Archived', 'Inv_C06_ArchivedNotReconciled'],
-    'C09': ['Inv_C09_NoWritesWhilePaused', 'Inv_C09_StillReports'],
+    'C07': ['Inv_C07_CreateJustified', 'Inv_C07_AtMostOnePerTemplateEpoch', 'Inv_C07_RevisionsUnique', 'Inv_C07_RevisionIncreasing', 'Inv_C07_NoReuse'],
+    'C08': ['Inv_C08_ArchiveOnlyPaused', 'Inv_C08_NewestNeverArchived', 'Inv_C08_ArchiveCondition', 'Inv_C08_PruneOldestOnly', 'Inv_C08_SharedObjectNotDeleted'],
+    'C09': ['Inv_C09_NoWritesWhilePaused', 'Inv_C09_StillReports', 'Inv_C09_DeploymentPausedNoRevisionChange', 'Inv_C09_ReleaseExactlyMarked', 'Inv_C09_Propagation'],
     'C11': ['Inv_C11_PhaseAllOrNothing', 'Inv_C11_Scope', 'Inv_C11_Reported', 'Inv_C11_NoWriteIfViolating', 'Inv_C11_ViolationReported'],
     'C19': ['Inv_C19_NoPanic'],
 }
@@ -80,10 +82,20 @@ def g_preflight(e):
         c['reason'] == 'PreflightError' for c in e['args']['body']['cr']['conds'])))
 
 
-GUARDS = {'C01': g_c01, 'C02': g_c02, 'C03': g_probefail, 'C04': g_teardown_write, 'C05': g_teardown_write, 'C06': g_status,
+def g_dep_create(e):
+    return e['actor'] in ('od', 'cod') and e['ev'] == 'Create' and not e['dry']
+
+
+def g_dep_archive(e):
+    return e['actor'] in ('od', 'cod') and ((e['ev'] == 'Update' and e['args']['body']['cr']['lifecycle'] == 'Archived') or e['ev'] == 'Delete')
+
+
+GUARDS = {'C07': g_dep_create, 'C08': g_dep_archive, 'C01': g_c01, 'C02': g_c02, 'C03': g_probefail, 'C04': g_teardown_write, 'C05': g_teardown_write, 'C06': g_status,
           'C09': g_paused, 'C11': g_preflight}
 
 RULES = {
+    'C07': 'non-trivial: the deployment controller issued an ObjectSet create; distinct by event sequence',
+    'C08': 'non-trivial: the deployment controller archived or pruned a revision; distinct by event sequence',
     'C01': 'a scenario (one Reset..next Reset slice of a trace of the real controllers) is non-trivial if a pass read an existing object its owner does not control (the adoption ladder was evaluated); distinct by the sequence of (actor,event,key,result)',
     'C02': 'non-trivial: an apply-patch changed the controller entries of an existing object (a handover happened); distinct by event sequence',
     'C03': 'non-trivial: the ObjectSet wrote an Available condition from probing (ProbeFailure or Available); distinct by event sequence',
@@ -149,7 +161,7 @@ def jobs_c01(tier, seed):
 HANDOVER = 'handover-2rev,handover-3rev,delegated-handover,local-to-delegated,rolledout-handover'
 ROLLOUT = 'single-2phase,single-3phase,delegated-mixed,sliced,rolledout-delegated,paused-start'
 TEARDOWN = 'rolledout-2phase,rolledout-delegated,rolledout-handover,single-2phase,delegated-mixed,handover-2rev,sliced'
-EVERY = ''
+DEPLOY = 'deploy,deploy-limit1,deploy-limit0,deploy-rolledout'
 
 
 def sched_jobs(specs):
@@ -193,9 +205,16 @@ CHECKS = {
     'C06': dict(level='model_checking', invariants=INV['C06'], assumptions=ASSUME, jobs=sched_jobs([
         ('all-atomic', ROLLOUT + ',' + TEARDOWN, 'all', 'atomic', 120, 2000, 80),
         ('all-api', ROLLOUT + ',' + TEARDOWN, 'all', 'api', 120, 2000, 150)])),
+    'C07': dict(level='model_checking', invariants=INV['C07'], assumptions=ASSUME, jobs=sched_jobs([
+        ('deploy-atomic', DEPLOY, 'deploy', 'atomic', 120, 2000, 120),
+        ('deploy-api', DEPLOY, 'deploy', 'api', 160, 3000, 250)])),
+    'C08': dict(level='model_checking', invariants=INV['C08'], assumptions=ASSUME, jobs=sched_jobs([
+        ('deploy-atomic', DEPLOY, 'deploy', 'atomic', 160, 3000, 160),
+        ('deploy-api', DEPLOY, 'deploy', 'api', 120, 2000, 250)])),
     'C09': dict(level='model_checking', invariants=INV['C09'], assumptions=ASSUME, jobs=sched_jobs([
         ('pause-atomic', ROLLOUT + ',' + HANDOVER + ',collision', 'pause', 'atomic', 120, 2000, 80),
-        ('pause-api', ROLLOUT + ',' + HANDOVER + ',collision', 'pause', 'api', 120, 2000, 150)])),
+        ('pause-api', ROLLOUT + ',' + HANDOVER + ',collision', 'pause', 'api', 120, 2000, 150),
+        ('deploy-pause', DEPLOY, 'deploy-pause', 'atomic', 80, 1500, 160)])),
     'C11': dict(level='model_checking', invariants=INV['C11'], assumptions=ASSUME, jobs=lambda tier, seed: [
         dict(name='preflight-table', shards=8 if tier == 'quick' else 14,
              driver=['preflight-table', '-n', '1500' if tier == 'quick' else '0', '-seed', str(seed)])]),
